@@ -11,7 +11,8 @@ PROP = dict(
             {"bin": "c05", "name": "schedule", "n": {"quick": 5, "thorough": 60}, "timeout": 1200},
             {"bin": "c05", "name": "concurrent", "n": {"quick": 4, "thorough": 40}, "timeout": 1200},
             {"bin": "c05", "name": "produce", "n": {"quick": 8, "thorough": 100}, "timeout": 1200},
-            {"bin": "c05", "name": "concurrent-race", "n": {"quick": 1, "thorough": 6}, "timeout": 1800}],
+            {"bin": "c05", "name": "concurrent-race", "n": {"quick": 1, "thorough": 6}, "timeout": 1800},
+            {"bin": "c05", "name": "coldstart", "n": {"quick": 2, "thorough": 30}, "timeout": 1200}],
     rule="election: NodeCount in 1..40 (and the production 30/15), RandCount in 0..NodeCount, 1..60 pillars (also exactly NodeCount, NodeCount+-1, 1..3), "
          "weights all equal / many ties and zeros / beyond 64 bits / distinct, names that are prefixes of one another or carry bytes >= 0x80, proof heights from uint64 boundary classes "
          "(2^63-1: seed+1 wraps), through consensus.NewElectionAlgorithm().SelectProducers with the observed rand.Perm tables handed to the model; "
@@ -29,6 +30,11 @@ PROP = dict(
          "produce: at many points of a history (several momentums per tick, gaps, (un)delegations) each registered pillar's key, a pillar key without registration and a user key try to PRODUCE the momentum of a slot ahead of the frontier "
          "(next slot, later slots, other ticks, instants inside a slot): directly through the real Supervisor.GenerateMomentum and through a real pillar manager (pillar.NewPillar, SetCoinBase, Process(event) -> worker -> GenerateMomentum -> Broadcaster.CreateMomentum), "
          "with fresh events and with STALE events (computed by ElectionByTick for the coming ticks, then late momentums of the tick before / a reorganisation by 1..12 replace the proof momentum before the event is acted on); "
+         "coldstart: histories with several momentums per tick and slot gaps (delegate / undelegate / a pillar drained of all backers / transfers between backers / registration of a fourth and fifth pillar, "
+         "delegation to it, its revocation, at any position relative to the tick boundaries) are replayed momentum by momentum through ChainBridge.InsertChain into a node whose consensus DB is DELETED (hz ReopenCold: same chain, "
+         "empty consensus LevelDB, new process state) before EVERY momentum (every position inside every tick), and into one where that happens at random positions and the node runs on for 2..12 momentums; after each delivery "
+         "(verification and the pre-computing listener electionManager.InsertMomentum have run, for empty and non-empty momentums) the node is asked for the elections of the ticks around its frontier (ElectionByTick, sampled slots through GetMomentumProducer), "
+         "in a quarter of the positions again after a plain restart (consensus DB read back); compared with the node that followed from genesis, with the reference election and (sample, a wrong answer always) with the model; "
          "a case is distinct by (function, input)",
     explanation="Theorems: an accepted momentum extends the frontier, is strictly later and at most 10 s ahead, its hash/changes-hash commit to content and executed changes, its signature verifies and its signer is the pillar "
                 "the election assigns to its slot (any other signer is rejected), and it is presented with exactly the account blocks its content names (as many distinct blocks as headers, every header names one, per-address linking; also evaluated directly on every momentum the real verifier accepts); for every configuration with at least one pillar and every permutation oracle the election returns exactly NodeCount registered pillars "
@@ -36,7 +42,8 @@ PROP = dict(
                 "the election cache keyed by proof hash answers like recomputation through any sequence of queries, evictions and rollbacks. "
                 "Oracles on the implementation beyond the theorems' reach (runtime statements): concurrent-election-equals-sequential / cached-election-equals-fresh (the list a node derives does not depend on what its other goroutines "
                 "were electing at the same moment, and what it stored under the proof hash is the fresh answer), no-data-race-between-concurrent-elections, and own-momentum-only-when-elected (the node's own production path hands out / inserts "
-                "a momentum iff its key is the elected producer of that slot on the current chain, also for stale producer events). "
+                "a momentum iff its key is the elected producer of that slot on the current chain, also for stale producer events), and cold-started-consensus-schedule-equals-live (what a node with an emptied consensus DB stores and answers "
+                "after the insert listeners ran - at whatever position inside a tick it was started - is the schedule of the node that followed from genesis and of the reference election from the ledger as of the proof momentum). "
                 "Modelled: SortPDByWeight.Less, ComputePillarDelegations, filterByWeight/filterRandom/shuffleOrder incl. fill-up loop and index panics, findSeed (int64 wrap), ticker.ToTick, genProofTime, "
                 "GetMomentumBeforeTime (as its specification), generateProducers slot times, GetMomentumProducer, election cache; getContext, rawMomentumVerifier (all six checks incl. content/prefetch linking), "
                 "momentumTransactionVerifier (changes hash, hash, signature, producer), recover in ApplyMomentum, parent check of ldbManager.Add.",
